@@ -404,7 +404,14 @@ theorem step_bnd (c : C) (i : In) (hi : Bnd c) (hok : okIn c i) : Bnd (step c i)
     split
     · rename_i hd; rw [h.notDead] at hd; cases hd
     · exact reap_mid _ h
-  | holdRef => exact holdRef_mid c hi
+  | holdRef =>
+    have hsl : stepLive c .holdRef = holdRef c := rfl
+    have h := holdRef_mid c hi
+    simp only
+    rw [hsl]
+    split
+    · rename_i hd; rw [h.notDead] at hd; cases hd
+    · exact reap_mid _ h
   | dropRef =>
     simp only [okIn] at hok
     have hsl : stepLive c .dropRef = dropRef c := rfl
